@@ -182,13 +182,15 @@ func c14run(out *evid.Out, c *c14case) {
 			if n := c.pad(ei); n > 0 {
 				e = e.Str("pad", strings.Repeat("x", n))
 			}
-			switch (c.salt + ei) % 3 {
+			switch (c.salt + ei) % 4 {
 			case 0:
 				e.Msg("m")
 			case 1:
 				e.Msgf("%s", "m")
-			default:
+			case 2:
 				e.MsgFunc(func() string { return "m" })
+			default:
+				e.Send()
 			}
 		}()
 		if pan != nil {
@@ -207,7 +209,20 @@ func c14run(out *evid.Out, c *c14case) {
 		if c.salt%4 == 1 {
 			hookTxt = `"hooked":true,`
 		}
-		wantBytes = append(wantBytes, fmt.Sprintf(`{%s"i":%d,%s%s"message":"m"}`+"\n", lvlTxt, ei, padTxt, hookTxt))
+		msgTxt := `"message":"m"`
+		if (c.salt+ei)%4 == 3 { // Send(): no message
+			msgTxt = ""
+			if hookTxt != "" {
+				hookTxt = hookTxt[:len(hookTxt)-1]
+			} else if padTxt != "" {
+				padTxt = padTxt[:len(padTxt)-1]
+			}
+		}
+		line := fmt.Sprintf(`{%s"i":%d,%s%s%s}`+"\n", lvlTxt, ei, padTxt, hookTxt, msgTxt)
+		if msgTxt == "" && padTxt == "" && hookTxt == "" {
+			line = fmt.Sprintf(`{%s"i":%d}`+"\n", lvlTxt, ei)
+		}
+		wantBytes = append(wantBytes, line)
 		// expected error: first destination in order whose outcome != ok among those reached
 		var wantErr string
 		for di := 0; di < c.d; di++ {
